@@ -2295,3 +2295,106 @@ def cached_fs_witness(ctx):
     except Unsupported as exc:
         return n, diffs, f"Unsupported: {exc}"
     return n, diffs, None
+
+
+# --------------------------------------------------------------------------- `gwf status` as a whole on the run witness project
+def eval_status_command(ctx, status=(), endpoints=False, fmt="default", targets=(), states=None, stale=()):
+    fn = ctx.index.func("gwf.plugins.status:status")
+    names = [n for n, d in RUN_PROJECT.items() if d is not None]
+    T = {n: Obj("target", name=n, options={}, spec="spec of " + n, order=i) for i, n in enumerate(names)}
+    deps = {T[n]: {T[d] for d in RUN_PROJECT[n]} for n in names}
+    dependents = {T[n]: {T[m] for m in names if n in RUN_PROJECT[m]} for n in names}
+    graph = GraphTok(T[n] for n in names)
+    states = dict(states or {})
+    events, lines = [], []
+    backend = Obj("backend", target_defaults={"cores": 1})
+    store = Obj("spec_hashes")
+
+    def h_close(v):
+        if v is backend:
+            events.append(("close-backend",))
+        elif v is store:
+            events.append(("close-store",))
+
+    hooks = {
+        "gwf.workflow.Workflow.from_context": lambda c: Obj("workflow", targets=dict(T)), "gwf.Workflow.from_context": lambda c: Obj("workflow", targets=dict(T)),
+        "gwf.core.Graph.from_targets": lambda *a, **k: graph, "gwf.core.CachedFilesystem": lambda *a, **k: Obj("fs"),
+        "getattr:dependencies": lambda o: deps, "getattr:dependents": lambda o: dependents, "getattr:targets": lambda o: dict(T),
+        "attr:endpoints": lambda recv: {T[n] for n in names if not dependents[T[n]]},
+        "gwf.scheduling.should_run": lambda target, fs, sh: target.name in stale,
+        "gwf.backends.base.create_backend": lambda *a, **k: (events.append(("open-backend",)), backend)[1],
+        "gwf.backends.create_backend": lambda *a, **k: (events.append(("open-backend",)), backend)[1],
+        "gwf.core.get_spec_hashes": lambda *a, **k: (events.append(("open-store",)), store)[1],
+        "attr:status": lambda recv, target: EnumVal("gwf.backends.base.BackendStatus", states.get(target.name, "UNKNOWN")),
+        "attr:submit": lambda recv, target, *a, **k: events.append(("submit", target.name)),
+        "attr:cancel": lambda recv, target, *a, **k: events.append(("cancel", target.name)),
+        "attr:update": lambda recv, *a, **k: recv.update(*a, **k) if isinstance(recv, (dict, set)) else events.append(("hash", a[0].name)),
+        "attr:invalidate": lambda recv, t: events.append(("invalidate", t.name)),
+        "attr:has_changed": lambda recv, t: None,
+        "with_exit": h_close, "attr:close": lambda recv, *a, **k: h_close(recv),
+        "os.remove": lambda p_: events.append(("remove", str(p_))), "os.unlink": lambda p_: events.append(("remove", str(p_))),
+        "builtins.open": lambda p_, mode="r", *a, **k: (events.append(("open", str(p_), mode)), Obj("file", path=str(p_), mode=mode))[1],
+        "click.secho": lambda *a, **k: lines.append(str(a[0]) if a else ""), "click.echo": lambda *a, **k: lines.append(str(a[0]) if a else ""),
+    }
+    interp = PureInterp(ctx, hooks=hooks)
+    interp.max_depth = 40
+    out = {"events": events, "lines": lines, "raised": None}
+    try:
+        interp.call(fn, (Obj("ctx", working_dir="/p", config={}, backend="B"), tuple(status), endpoints, fmt, tuple(targets)))
+    except Raised as exc:
+        out["raised"] = exc.kind
+        out["detail"] = exc.detail
+    except Unsupported as exc:
+        return None, f"Unsupported: {exc}"
+    return out, None
+
+
+def status_command_witness(ctx):
+    deps = {n: d for n, d in RUN_PROJECT.items() if d is not None}
+    all_eps = ["C", "X"]
+    diffs, n = [], 0
+    scenarios = [({}, set(deps)), ({"A": "FAILED", "B": "SUBMITTED"}, set()), ({"A": "RUNNING"}, {"X"}), ({"A": "COMPLETED", "B": "CANCELLED"}, set()), ({}, set())]
+    views = [((), False, ()), (("shouldrun",), False, ()), (("failed", "cancelled"), False, ()), ((), True, ()), ((), False, ("A", "X")), (("shouldrun",), False, ("B*", "X")),
+             (("completed", "submitted"), True, ())]
+    for states, stale in scenarios:
+        st_want, _sub = schedule_oracle(deps, states, stale, all_eps)
+        for flt, eps, pats in views:
+            import fnmatch
+            out, err = eval_status_command(ctx, flt, eps, "default", pats, states, stale)
+            if err:
+                return n, diffs, err
+            n += 1
+            label = f"`gwf status{''.join(' -s ' + f for f in flt)}{' --endpoints' if eps else ''} {' '.join(pats)}` with backend states {states or 'none'}, stale {sorted(stale) or 'none'}"
+            if out["raised"]:
+                diffs.append(f"{label} ends with {out['raised']} ({out.get('detail', '')[:60]})")
+                continue
+            bad_ev = [e for e in out["events"] if e[0] in ("submit", "cancel", "hash", "invalidate", "remove") or (e[0] == "open" and any(ch in e[2] for ch in "wax+"))]
+            if bad_ev:
+                diffs.append(f"{label}: the status command has effects {bad_ev[:3]}; it must never submit, cancel, record, erase or delete anything")
+            show = {t: s for t, s in st_want.items()
+                    if (not flt or s.lower() in flt) and (not eps or t in all_eps) and (not pats or any(fnmatch.fnmatchcase(t, p_) for p_ in pats))}
+            got = {}
+            for ln in out["lines"]:
+                parts = ln.split()
+                if len(parts) >= 3 and parts[1] in deps:
+                    got[parts[1]] = parts[2].upper()
+            if got != show:
+                diffs.append(f"{label}: shows {got}; the property prescribes the restriction {show} of the one table {st_want}")
+            if len(diffs) > 4:
+                return n, diffs, None
+    # summary format: counts of the same table
+    out, err = eval_status_command(ctx, (), False, "summary", (), {"A": "FAILED"}, {"X"})
+    if err:
+        return n, diffs, err
+    n += 1
+    if out["raised"]:
+        diffs.append(f"`gwf status -f summary` ends with {out['raised']}")
+    # an empty selection must not crash either format
+    for fmt in ("default", "summary"):
+        out, err = eval_status_command(ctx, ("running",), False, fmt, ("nomatch",), {}, set())
+        if err:
+            return n, diffs, err
+        n += 1
+        if out["raised"]:
+            diffs.append(f"`gwf status -f {fmt}` on an empty selection ends with {out['raised']}")
+    return n, diffs, None
